@@ -31,13 +31,41 @@ def gen_cases(seed, tier, n):
     for i in range(n):
         c = tracegen.gen_case(seed, i, tracegen.PROFILES[profs[i % len(profs)]])
         c["params"] = {}
+        if i % 8 == 6:
+            fw.set_quarter_us(c)           # quarter-microsecond resolution (framework.resolution)
+        if i % 7 == 3:
+            import random as _r
+            tracegen.add_second_process(c, _r.Random(seed * 15485863 + i))     # two processes, same thread id
         out.append(c)
     return out
 
 
+TIMECOLS = ("kernel_dur_sum", "first_kernel_start", "last_kernel_end", "kernel_span")
+
+
+def _row(rec, k=1):
+    """one table row; k: time scale of a quarter-microsecond case (the sentinel -1 of the two instants is not a time)"""
+    row = [fw.as_int(rec["index"])]
+    for c in COLS:
+        if k != 1 and c in TIMECOLS and rec[c] != -1:
+            v = fw.as_int(rec[c] * k)
+        else:
+            v = fw.as_int(rec[c])
+        if c == "parent" and v < 0:
+            v = -1
+        row.append(v)
+    return row
+
+
 def run_impl(case, d):
+    with fw.resolution(case):
+        return _run_impl(case, d)
+
+
+def _run_impl(case, d):
     from hta.common.trace_call_graph import CallGraph
-    ta, paths = fw.load_case(case, d)
+    k = fw.time_scale(case)
+    ta, paths = fw.load_case_res(case, d)
     sym = ta.t.symbol_table.get_sym_table()
     ranks = sorted(ta.t.get_ranks())
     out = {}
@@ -46,16 +74,10 @@ def run_impl(case, d):
         cg = CallGraph(ta.t, ranks=ranks)
         for r in ranks:
             df = cg.trace_data.get_trace(r)
-            frames[r] = fw.dump_frame(df, sym)
+            frames[r] = fw.dump_frame_res(case, df, sym)
             rows = []
             for rec in df.to_dict("records"):
-                row = [fw.as_int(rec["index"])]
-                for c in COLS:
-                    v = fw.as_int(rec[c])
-                    if c == "parent" and v < 0:
-                        v = -1
-                    row.append(v)
-                rows.append(row)
+                rows.append(_row(rec, k))
             out[r] = sorted(rows)
         # a second CallGraph over the same loaded trace (what two analyses in a row do) must report the same columns
         cg2 = CallGraph(ta.t, ranks=ranks)
@@ -64,13 +86,7 @@ def run_impl(case, d):
             df = cg2.trace_data.get_trace(r)
             rows = []
             for rec in df.to_dict("records"):
-                row = [fw.as_int(rec["index"])]
-                for c in COLS:
-                    v = fw.as_int(rec[c])
-                    if c == "parent" and v < 0:
-                        v = -1
-                    row.append(v)
-                rows.append(row)
+                rows.append(_row(rec, k))
             second[r] = sorted(rows)
         out["second"] = {r: [(a, b_) for a, b_ in zip(out[r], second[r]) if a != b_][:3] for r in ranks}
         # the other observable: get_stack_of_node(idx) = the node, its descendants and (unless skipped) its ancestors, with the table's columns
@@ -89,13 +105,7 @@ def run_impl(case, d):
                         sdf = cg2.get_stack_of_node(x[0], rank=r, skip_ancestors=skip)
                         rows_ = []
                         for rec in sdf.to_dict("records"):
-                            row = [fw.as_int(rec["index"])]
-                            for c in COLS:
-                                v = fw.as_int(rec[c])
-                                if c == "parent" and v < 0:
-                                    v = -1
-                                row.append(v)
-                            rows_.append(row)
+                            rows_.append(_row(rec, k))
                         res.append([x[0], skip, sorted(rows_)])
                     except Exception as e:
                         res.append([x[0], skip, "error: " + type(e).__name__ + ": " + str(e)[:160]])
@@ -105,7 +115,7 @@ def run_impl(case, d):
         import traceback
         out = {"error": type(e).__name__ + ": " + str(e)[:200] + " @ " + traceback.format_exc()[-300:]}
         for r in ranks:
-            frames[r] = fw.dump_frame(ta.t.get_trace(r), sym)
+            frames[r] = fw.dump_frame_res(case, ta.t.get_trace(r), sym)
     return {"frames": frames, "out": out}
 
 
